@@ -209,6 +209,28 @@ Proof.
 Qed.
 Print Assumptions C43_float_single_nearest.
 
+(* ------------------------------------------------------------------ histories *)
+
+(* the round trips hold after ANY history of API calls and BASIC-side changes (LET, CLEAR / NEW / RUN / storing a
+   program line, DIM, OPTION BASE, ...), in particular when the same value is assigned again after BASIC changed
+   or cleared the variable: the theorems above are for every state, here spelled out for the reachable ones *)
+Theorem C43_after_history : forall E ops name,
+  let st := final E st_init ops in
+  (forall n, scalar_name name sg_int -> in16 n ->
+     let st' := fst (set_variable E st name (PInt n)) in
+     snd (set_variable E st name (PInt n)) = Ok tt /\ get_variable E st' name 0 = Ok (PInt n) /\
+     evaluate st' name [] = (st', Ok (PInt n))) /\
+  (forall s, scalar_name name sg_str -> zlen s <= 255 ->
+     let st' := fst (set_variable E st name (PBytes s)) in
+     snd (set_variable E st name (PBytes s)) = Ok tt /\ get_variable E st' name 0 = Ok (PBytes s) /\
+     evaluate st' name [] = (st', Ok (PBytes s))) /\
+  (e_fv E = mbf_from_value -> float_statement E).
+Proof.
+  intros E ops name st. split; [intros n; apply int_roundtrip|]. split; [intros s; apply bytes_roundtrip|].
+  apply float_model_thm.
+Qed.
+Print Assumptions C43_after_history.
+
 (* ------------------------------------------------------------------ non-vacuity *)
 
 (* names, pages, and a concrete session: OPTION BASE 1, DIM A%(2,3), a 2x3 list, read back, one element evaluated,
